@@ -43,12 +43,6 @@ pub open spec fn Committee_group(x: Committee) -> Seq<Tok> { seq![Tok::Map(x.mem
 pub open spec fn UpdateCommitteeAction_enc(x: UpdateCommitteeAction) -> Seq<Tok> {
     seq![Tok::Arr(5), Tok::UInt(4)] + opt_null(x.gov_action_id) + x.members_to_remove.enc() + Committee_group(x.committee)
 }
-pub open spec fn TransactionMetadatumEnum_enc(x: TransactionMetadatumEnum) -> Seq<Tok> {
-    match x {
-        TransactionMetadatumEnum::MetadataMap(m) => m.enc(), TransactionMetadatumEnum::MetadataList(l) => l.enc(), TransactionMetadatumEnum::Int(i) => i.enc(),
-        TransactionMetadatumEnum::Bytes(b) => seq![Tok::Bytes(b@)], TransactionMetadatumEnum::Text(t) => seq![Tok::Text(t@)],
-    }
-}
 pub open spec fn aux_entry<T: Ser>(k: u64, o: Option<T>) -> Seq<Tok> { match o { Some(x) => seq![Tok::UInt(k)] + x.enc(), None => Seq::empty() } }
 pub open spec fn aux_plutus(o: Option<PlutusScripts>) -> Seq<Tok> {
     match o {
